@@ -104,10 +104,13 @@ def new_model_history():
     cust0 = [fld('name', 'CharField', max_length=20, null=True)]
     cust1 = cust0 + [fld('phone', 'CharField', max_length=20, null=True)]
     cust2 = cust1 + [fld('notes', 'CharField', max_length=50, null=True)]
+    # (the late-arriving models carry a table comment: part of the signature, ignored by SQLite)
     order = mdl('Order', [fld('customer', 'ForeignKey', 'vapp.Customer', null=True),
                           fld('reference', 'CharField', max_length=12, null=True, db_index=True),
                           fld('lines', 'ManyToManyField', 'vapp.Customer')])
     invoice = mdl('Invoice', [fld('order', 'ForeignKey', 'vapp.Order', null=True)])
+    order['comment'] = 'orders as received'
+    invoice['comment'] = 'one per order'
     specs = [{'apps': [{'id': 'vapp', 'models': [mdl('Customer', cust0)]}]},
              {'apps': [{'id': 'vapp', 'models': [mdl('Customer', cust1), order]}]},
              {'apps': [{'id': 'vapp', 'models': [mdl('Customer', cust2), order]}]},
